@@ -67,7 +67,13 @@ var (
 		qframe.Filter{Column: "i", Comparator: "<", Arg: 2})
 	c11SharedOrders = []qframe.Order{{Column: "e", Reverse: true, NullLast: true}, {Column: "k"}, {Column: "i", Reverse: true}}
 	c11SharedInstr  = []qframe.Instruction{{Fn: 7, DstCol: "n"}, {Fn: "ToUpper", DstCol: "u", SrcCol1: "s"}, {Fn: types.ColumnName("i"), DstCol: "n2"}}
-	c11SharedExpr   = qframe.Expr("+", qframe.Expr("*", types.ColumnName("i"), 2), types.ColumnName("k"), 1)
+	// value lists and key lists a program keeps and hands to every call (not in sorted order)
+	c11SharedIntList  = []int{5, 1, 3, 2}
+	c11SharedStrList  = []string{"b", "abca", "a"}
+	c11SharedKeys     = []string{"s", "z", "e", "k"}
+	c11SharedInClause = qframe.Or(qframe.Filter{Column: "i", Comparator: "in", Arg: c11SharedIntList}, qframe.Filter{Column: "s", Comparator: "in", Arg: c11SharedStrList},
+		qframe.Filter{Column: "f", Comparator: "in", Arg: []float64{3e40, -1}}, qframe.Filter{Column: "k", Comparator: "in", Arg: []interface{}{7, 1.0, 0}})
+	c11SharedExpr = qframe.Expr("+", qframe.Expr("*", types.ColumnName("i"), 2), types.ColumnName("k"), 1)
 	// (one function value made by aggregation.StrJoin used by all calls)
 	c11SharedAggs = []qframe.Aggregation{{Fn: "sum", Column: "i"}, {Fn: "max", Column: "f", As: "mf"}, {Fn: "count", Column: "s", As: "n"},
 		{Fn: aggregation.StrJoin("+"), Column: "s", As: "js"}, {Fn: aggregation.StrJoin("+"), Column: "e", As: "je"}}
@@ -264,6 +270,14 @@ func c11Ops() []concOp {
 		// expressions are plain values a program builds once and uses from many goroutines)
 		{"Filter(shared Or(And,leaf,Not,leaf))", false, func(q qframe.QFrame, y func()) string {
 			return digestFrame(q.Filter(c11SharedClause))
+		}},
+		{"Filter(shared in-lists)", false, func(q qframe.QFrame, y func()) string {
+			return digestFrame(q.Filter(c11SharedInClause)) + digestFrame(q.Filter(qframe.Filter{Column: "i", Comparator: "in", Arg: c11SharedIntList}))
+		}},
+		{"Distinct / GroupBy(shared key list)", false, func(q qframe.QFrame, y func()) string {
+			d := q.Distinct(groupby.Columns(c11SharedKeys...))
+			g := q.GroupBy(groupby.Columns(c11SharedKeys...)).Aggregate(qframe.Aggregation{Fn: "count", Column: "i"})
+			return fmt.Sprint(d.Len(), g.Len(), g.ColumnNames())
 		}},
 		{"Sort(shared orders)", false, func(q qframe.QFrame, y func()) string {
 			return digestFrame(q.Sort(c11SharedOrders...))
